@@ -34,3 +34,56 @@ Proof.
   intros F. revert d. induction prog as [|[[[now nowms] args] hint] r IH]; intros d O; [exact O|].
   cbn. apply IH. apply exec_keeps_zsets; assumption.
 Qed.
+
+(* ------------------------------------------------------------------ a toolkit for the other families *)
+(* [zsets_from d d']: every sorted set stored in d' was already stored in d (under some key).
+   A command that only stores values of other types, deletes, moves values or edits deadlines
+   satisfies it, and then keeps every stored sorted set valid. *)
+Definition zsets_from (d d' : db) : Prop :=
+  forall k z, db_get d' k = Some (VZSet z) -> exists k0, db_get d k0 = Some (VZSet z).
+
+Lemma zsets_from_ok d d' : zsets_from d d' -> db_zsets_ok d -> db_zsets_ok d'.
+Proof.
+  intros F O k v H. destruct v; try exact I.
+  destruct (F k z H) as [k0 H0]. exact (O k0 _ H0).
+Qed.
+
+Lemma zsets_from_refl d : zsets_from d d.
+Proof. intros k z H. exists k. exact H. Qed.
+
+Lemma zsets_from_trans d1 d2 d3 : zsets_from d1 d2 -> zsets_from d2 d3 -> zsets_from d1 d3.
+Proof. intros F1 F2 k z H. destruct (F2 k z H) as [k0 H0]. exact (F1 k0 z H0). Qed.
+
+Lemma zsets_from_set d k v :
+  (forall z, v = VZSet z -> exists k0, db_get d k0 = Some (VZSet z)) -> zsets_from d (db_set d k v).
+Proof.
+  intros Hv k1 z. unfold db_get, db_set. cbn [kv].
+  destruct (bytes_eq_dec k1 k) as [->|N].
+  - rewrite alookup_aset_same. intros H. inversion H. apply Hv. assumption.
+  - rewrite alookup_aset_other by exact N. intros H. exists k1. exact H.
+Qed.
+
+Lemma zsets_from_del d k : zsets_from d (db_del d k).
+Proof.
+  intros k1 z. unfold db_get, db_del. cbn [kv].
+  destruct (bytes_eq_dec k1 k) as [->|N].
+  - rewrite alookup_aremove_same. discriminate.
+  - rewrite alookup_aremove_other by exact N. intros H. exists k1. exact H.
+Qed.
+
+Lemma zsets_from_set_ttl d k t : zsets_from d (db_set_ttl d k t).
+Proof. unfold db_set_ttl. destruct (amem k (kv d)); intros k1 z H; exists k1; exact H. Qed.
+
+Lemma zsets_from_del_ttl d k : zsets_from d (db_del_ttl d k).
+Proof. intros k1 z H. exists k1. exact H. Qed.
+
+Lemma zsets_from_purge d now : zsets_from d (purge d now).
+Proof.
+  intros k z. rewrite db_get_purge. destruct (expired d now k); [discriminate|].
+  intros H. exists k. exact H.
+Qed.
+
+Lemma zsets_from_family (f : family) :
+  (forall d now nowms n args hint r d', f d now nowms n args hint = Some (r, d') -> zsets_from d d') ->
+  family_keeps_zsets f.
+Proof. intros H d now nowms n args hint r d' O E. eapply zsets_from_ok; [eapply H; exact E|exact O]. Qed.
